@@ -169,6 +169,31 @@ fn gate_case(col: &ColSpec, vals: &[Val], reopen: bool) -> (u64, u64, Vec<V>) {
                 }
             }
         }
+        if let (true, Some(b)) = (have_base, &base) {
+            // the same column assigned twice in one update: every assigned
+            // value must be valid, whichever of them ends up stored
+            let one = crate::val::E::bin(crate::val::Bin::Eq, crate::val::E::col("K"), crate::val::E::int(1));
+            for (which, sets) in [("valid-then-this", vec![("C".to_string(), b.clone()), ("C".to_string(), v.clone())]), ("this-then-valid", vec![("C".to_string(), v.clone()), ("C".to_string(), b.clone())])] {
+                let up = h.apply(&Op::Update { table: "G".into(), sets, cond: Some(one.clone()) });
+                match &up {
+                    Outcome::Panic(p) => {
+                        out.push((format!("gate:update-panic:{}", panic_site(p)), format!("update assigning the column twice ({} {}) on {:?} panicked: {}", which, v.show(), col, p), rep(v)));
+                        return (n, accepted, out);
+                    }
+                    o => {
+                        if o.is_ok() != pred {
+                            out.push((
+                                format!("gate:update-assigning-twice-vs-validator:{}:{}:{}{}", which, col_class(col), val_class(v), sfx),
+                                format!("column {:?}{}: update assigning the column twice ({}: {} and {}) returned {:?} but is_valid_value({}) says {}", col, sfx, which, b.show(), v.show(), o, v.show(), pred),
+                                rep(v),
+                            ));
+                        }
+                    }
+                }
+            }
+            // leave the base row with the base value
+            let _ = h.apply(&Op::Update { table: "G".into(), sets: vec![("C".to_string(), b.clone())], cond: Some(one) });
+        }
         if have_base {
             let up = h.apply(&Op::Update { table: "G".into(), sets: vec![("C".into(), v.clone())], cond: Some(crate::val::E::bin(crate::val::Bin::Eq, crate::val::E::col("K"), crate::val::E::int(1))) });
             match &up {
@@ -525,7 +550,7 @@ pub fn run(tier: Tier) -> i32 {
     rep.set("category_strings_unspecified", class_counts[2]);
     rep.set("library_built_values", built_n);
     rep.set("exhaustive", true);
-    rep.set("rule", format!("(a) {} column definitions x {} values, on the table as created and again after save and reopen: insert Ok <=> update Ok <=> is_valid_value <=> three-valued reference; arities 0..33 against 1, 2, 32 columns; (b) every string of length <= {} over each category's adversarial alphabet (all 26 categories) plus boundary strings, and all single (thorough: and double) substitutions, deletions and insertions of a valid GUID; (c) Value::from(Uuid) for every nibble position x 16 values, Value::from(&[Language]) for all lists of length 1..3 over 5 codes. distinct_nontrivial = strings the grammar must accept + accepted (column, value) pairs", cols.len(), vals.len(), maxlen));
+    rep.set("rule", format!("(a) {} column definitions x {} values, on the table as created and again after save and reopen: insert Ok <=> update Ok <=> update assigning the column twice (valid + this value, either order) Ok <=> is_valid_value <=> three-valued reference; arities 0..33 against 1, 2, 32 columns; (b) every string of length <= {} over each category's adversarial alphabet (all 26 categories) plus boundary strings, and all single (thorough: and double) substitutions, deletions and insertions of a valid GUID; (c) Value::from(Uuid) for every nibble position x 16 values, Value::from(&[Language]) for all lists of length 1..3 over 5 codes. distinct_nontrivial = strings the grammar must accept + accepted (column, value) pairs", cols.len(), vals.len(), maxlen));
     let _ = BTreeSet::<u8>::new();
     rep.sample(json!({"column": cols[3], "value": vals[7]}));
     rep.sample(json!({"category": "Version", "string": "1.65536", "reference": format!("{:?}", category_accepts("Version", "1.65536"))}));
